@@ -24,6 +24,7 @@ use tokio::{
 
 use crate::{
     base64_decode,
+    date_utils::now,
     database::{
         daily_log::{DailyLog, RoomDefinitionLog},
         edge::{Edge, EdgeDeletionEntry},
@@ -457,11 +458,14 @@ impl LocalPeerService {
         match msg {
             LocalEvent::RoomDefinitionChanged(room) => {
                 let key = remote_key.lock().await;
-                if room.has_user(&key) {
+                //only the peers that are members of the room at this moment are served
+                if room.is_user_valid_at(&key, now()) {
                     inbound_query_service.add_allowed_room(room.id);
                     Self::send_event(event_sender, RemoteEvent::RoomDefinitionChanged(room.id))
                         .await
                         .map_err(|_| crate::Error::TimeOut("RoomDefinitionChanged".to_string()))?;
+                } else {
+                    inbound_query_service.remove_allowed_room(room.id);
                 }
             }
             LocalEvent::RoomDataChanged(rooms) => {
